@@ -1,11 +1,12 @@
 SPECIFICATION Spec
 CONSTANTS
   EncoderBuffer = "fresh"
-  EncodeVar = "captured"
-  Encoders = {"application/json"}
+  EncodeVar = "own"
+  Encoders = {"application/json", "application/problem+json"}
+  NoEncoder = "forward"
   CloseBinding = "at_defer"
   Small = TRUE
-  MTs = {"application/json", "application/x-www-form-urlencoded"}
+  MTs = {"application/json", "application/problem+json", "application/x-www-form-urlencoded"}
   MaxV1 = 2
   MaxV2 = 1
   MaxR1 = 1
